@@ -63,6 +63,7 @@ impl<S, K: Clone + Eq + Hash> QueueInner<S, K> {
 pub struct FairQueue<S, K: Clone> {
     block_on_no_clients: bool,
     inner: Arc<Mutex<QueueInner<S, K>>>,
+    on_stream_end: Option<Box<dyn Fn(&K) + Send + Sync>>,
 }
 
 #[derive(Clone)]
@@ -170,6 +171,14 @@ where
                 Poll::Ready(None) => {
                     // Peer disconnected. Don't put the stream back.
                     // Continue to poll other streams instead of returning None immediately.
+                    drop(io_stream);
+                    // (unless a newer connection of the same peer has registered meanwhile)
+                    let superseded = fair_queue.inner.lock().streams.contains_key(&event.key);
+                    if !superseded {
+                        if let Some(on_stream_end) = &fair_queue.on_stream_end {
+                            on_stream_end(&event.key);
+                        }
+                    }
                     continue;
                 }
                 Poll::Pending => {
@@ -200,6 +209,7 @@ impl<S, K: Clone> FairQueue<S, K> {
     pub fn new(block_on_no_clients: bool) -> Self {
         Self {
             block_on_no_clients,
+            on_stream_end: None,
             inner: Arc::new(Mutex::new(QueueInner {
                 counter: atomic::AtomicUsize::new(0),
                 ready_queue: BinaryHeap::new(),
@@ -212,6 +222,13 @@ impl<S, K: Clone> FairQueue<S, K> {
 
     pub(crate) fn inner(&self) -> Arc<Mutex<QueueInner<S, K>>> {
         self.inner.clone()
+    }
+
+    /// `f` is called with the key of every stream that ends. A peer that closes its connection
+    /// in an orderly way produces no error item, so this is the only way for the owner of the
+    /// queue to learn that the peer has gone.
+    pub(crate) fn on_stream_end(&mut self, f: impl Fn(&K) + Send + Sync + 'static) {
+        self.on_stream_end = Some(Box::new(f));
     }
 }
 
